@@ -162,7 +162,7 @@ func (fsm *stateMachine) onApply(t fsmApply) {
 }
 
 func (fsm *stateMachine) onSnapReq(t fsmSnapReq) {
-	if fsm.index == fsm.snaps.index {
+	if snapIndex, _ := fsm.snaps.latest(); fsm.index == snapIndex {
 		t.reply(ErrNoUpdates)
 		return
 	}
@@ -233,6 +233,7 @@ func (r *Raft) onTakeSnapshot(t takeSnapshot) {
 		return
 	}
 	r.snapTakenCh = make(chan snapTaken, 1)
+	snapIndex, _ := r.snaps.latest()
 	go func(index uint64) { // tracked by r.snapTakenCh
 		if verif {
 			verifPoint("snap.begin", r.snaps.dir)
@@ -246,7 +247,7 @@ func (r *Raft) onTakeSnapshot(t takeSnapshot) {
 			meta: meta,
 			err:  err,
 		}
-	}(r.snaps.index + t.threshold)
+	}(snapIndex + t.threshold)
 }
 
 func doTakeSnapshot(fsm *stateMachine, index uint64) (snapshotMeta, error) {
